@@ -263,9 +263,16 @@ func crashSignature(stderr string) (clause, site, detail string) {
 		// a race whose two accesses are both in harness code is harness trouble, not a violation
 		harness := 0
 		for i := 0; i < 2 && i < len(parts); i++ {
-			ls := strings.Split(parts[i], "\n")
-			if len(ls) > 1 && strings.HasPrefix(strings.TrimSpace(ls[1]), "verifsim/") {
-				harness++
+			for _, l := range strings.Split(parts[i], "\n")[1:] {
+				l = strings.TrimSpace(l)
+				if l == "" || strings.HasPrefix(l, "/") || strings.HasPrefix(l, "runtime.") || strings.HasPrefix(l, "sync.") || strings.HasPrefix(l, "sync/atomic.") || strings.HasPrefix(l, "internal/") {
+					continue
+				}
+				if strings.HasPrefix(l, "verifsim/") {
+					harness++
+				}
+
+				break
 			}
 		}
 		if harness == 2 {
@@ -398,6 +405,7 @@ func runWorker(bin, id, tier string, seed uint64, from, to, step int, budget tim
 		inflight := -1
 		inflightSub := 0
 		done := false
+		killedByWatchdog := false
 		sc := bufio.NewScanner(stdout)
 		sc.Buffer(make([]byte, 1<<20), 1<<28)
 		var runStart time.Time
@@ -415,6 +423,9 @@ func runWorker(bin, id, tier string, seed uint64, from, to, step int, budget tim
 					stuck := inflight >= 0 && time.Since(runStart) > 120*time.Second
 					wmu.Unlock()
 					if stuck {
+						wmu.Lock()
+						killedByWatchdog = true
+						wmu.Unlock()
 						_ = cmd.Process.Kill()
 
 						return
@@ -463,6 +474,22 @@ func runWorker(bin, id, tier string, seed uint64, from, to, step int, budget tim
 			return
 		}
 		// the run in flight killed the process
+		if killedByWatchdog {
+			// a run that exceeded the real-time watchdog is inconclusive (the machine may be
+			// loaded), not a verdict; too many of them turn the check into exit 2
+			a.mu.Lock()
+			a.evals++
+			a.inconcl++
+			a.mu.Unlock()
+			if hasExpand {
+				from = inflight
+				subFrom = inflightSub + 1
+			} else {
+				from = inflight + step
+			}
+
+			continue
+		}
 		clause, site, detail := crashSignature(stderr.String())
 		a.mu.Lock()
 		a.crashes++
